@@ -409,7 +409,7 @@ func checkVectorEnv(shape int, argv []string, env map[string]string) (msg string
 // ---- generators ----
 
 var goodValues = map[string][]string{
-	"bool":     {"true", "false", "1", "0", "T", "f", "TRUE", ""},
+	"bool": {"true", "false", "1", "0", "T", "f", "TRUE", ""},
 	// integer texts are read like Go literals, as the flag package reads them: 0x, 0o, 0b, a leading 0, underscores
 	"int":      {"0", "42", "-7", "9223372036854775807", "-9223372036854775808", "+5", "", "0x10", "-0x8", "0b101", "0o17", "017", "0644", "-010", "1_000", "0X1f"},
 	"int64":    {"0", "42", "-7", "9223372036854775807", "-9223372036854775808", "", "0x7fffffffffffffff", "0777", "0b1", "1_0"},
